@@ -150,6 +150,15 @@ def mutations(subject, rng):
         # a full-width preparation after a mid-circuit measurement would also violate the mode-count rule
         if not any(outcomes.is_measurement(x["type"]) for x in prog[:pos]):
             mk("preparation-after-gate", inserted(pos, late_prep), position=pos)
+    # a sub-program registered on a register with fewer modes than its instructions address
+    two = [i for i in gates if prog[i]["type"] in TWO_MODE and prog[i].get("modes") and not prog[i].get("when") and not any(isinstance(v, dict) and v.get("$") in ("expr", "fn") for v in prog[i]["params"].values())]
+    if two:
+        i = rng.pick(two)
+        inner = dict(copy.deepcopy(prog[i]), modes=[0, 1])
+        nested = {"type": "$nested", "register": [prog[i]["modes"][0]], "program": [inner]}
+        p = copy.deepcopy(prog)
+        p[i] = nested
+        mk("arity-nested-register", p, position=i)
     # ... and after a mid-circuit measurement with no gate in between ("preparation after other instructions")
     MID = {"PureFockSimulator": "ParticleNumberMeasurement", "PassiveSimulator": "ParticleNumberMeasurement", "FermionicPureFockSimulator": "ParticleNumberMeasurement", "GaussianSimulator": "HomodyneMeasurement"}
     if sim in MID and d >= 2 and first_gate >= 1:
